@@ -1079,7 +1079,11 @@ pub fn check_case(ctx: &mut Ctx, case: &Case, cfg: &Cfg, props: &[String], want_
         let b = res.session.call(&rc, wf);
         res.session.rel("cursor", a, b);
         match &rc.out {
-            Err(p) => res.viols.push(Viol { prop: "C04", clause: "panic_with_cursors", detail: p.clone() }),
+            Err(p) => {
+                res.viols.push(Viol { prop: "C04", clause: "panic_with_cursors", detail: p.clone() });
+                // the same text is formatted without cursors: requesting them changed the result (there is none)
+                res.viols.push(Viol { prop: "C15", clause: "text_unchanged", detail: format!("formatting aborts when cursors are tracked (it returns a text without them): {p}") });
+            }
             Ok(_) => {
                 bump(&mut res, "C15");
                 res.viols.extend(c15(&rc, &out));
